@@ -144,7 +144,10 @@ def vocab(expr):
 
 
 def parse(spec):
-    return ast.parse(spec, mode="eval").body
+    from . import alpha
+    t = ast.parse(spec, mode="eval")
+    alpha.normalise_polarity(t)               # the analysed tree is in this normal form (`a if c else b`, never `b if not c else a`)
+    return t.body
 
 
 def match(ctx, rule, construct, found, specs, names=None, body=None, mod=None, node=None, sig=None, required=None):
@@ -204,6 +207,7 @@ def match_stmts(ctx, rule, construct, body, specs, names=None, mod=None, node=No
     from . import alpha
     wm = ast.parse("\n".join(specs))
     alpha.split_tuple_assigns(wm)               # the analysed tree has one binding per statement (model normalisation)
+    alpha.normalise_polarity(wm)
     want = list(wm.body)
     gk, wk = [stmt_key(s) for s in got], [stmt_key(s) for s in want]
     ok = (gk == wk) if exact else all(k in gk for k in wk)
